@@ -8,6 +8,7 @@ import MetapypeModel.Model.NsHeap
 import MetapypeModel.Model.Copy
 import MetapypeModel.Model.Registry
 import MetapypeModel.Model.Prune
+import MetapypeModel.Model.Expand
 import MetapypeModel.Gen.Rules
 import MetapypeModel.Gen.Facts
 /-
@@ -236,6 +237,10 @@ def handle (j : Json) : Json :=
       Json.mkObj [("tree", match r.1 with | some t' => treeJson t' | none => Json.null),
                   ("pruned", .arr ((prunedList L T strict t).map (fun x => Json.arr #[.str x.1, .str (reasonStr x.2)])).toArray),
                   ("unspec", .bool (unspecTree T t))]
+  | some "expand" =>
+      match expandT (fun k => "uid" ++ toString k) (getTree (fld j "tree")) 0 with
+      | none => .str "ValueError"
+      | some t' => treeJson t'
   | some "isequal" =>
       Json.bool (isEqual (getTree (fld j "a")) (getTree (fld j "b")))
   | some "tables" =>
